@@ -108,13 +108,14 @@ def run(tier, seed, **opts):
         stats[fam] = stats.get(fam, 0) + 1
         col.case(pg.case_key(case), nontrivial=bool(c or d), sample={"family": fam, **case} if (d and n % 499 == 0) else None)
 
-    tiny_kw = dict(lengths=(1, 2, 7), bpts=(1.0,), max_contigs=2, max_cuts=1) if quick else dict(lengths=(1, 2, 7, 16), bpts=(1.0, 2.5), max_contigs=2, max_cuts=2)
+    scopes = pg.tiny_scopes(tier, wide=True)
     tiny_n = 0
-    for case in pg.tiny_exhaustive(**tiny_kw):
-        tiny_n += 1
-        one(case, "tiny")
-        if col.full:
-            break
+    for kw in scopes:
+        for case in pg.tiny_exhaustive(**kw):
+            tiny_n += 1
+            one(case, "tiny")
+            if col.full:
+                break
     for fam, case, _ in pg.model_cases(tier, rng):
         if col.full:
             break
@@ -123,8 +124,8 @@ def run(tier, seed, **opts):
         bounds=(
             "input: 1-3 scaffolds x 1-6 contigs, contig lengths from {1,2,7,12,40,150,400,1000}, gaps none/1/10/20/25/200, both "
             "strands, names fasta/own/offset, optional terminal gaps; texel sizes {1,2.5,10,33.3}; <= 3 cuts per scaffold; "
-            f"tiny scope ({tiny_n} cases, lengths {list(tiny_kw['lengths'])}, <= 2 contigs, texel sizes {list(tiny_kw['bpts'])}, "
-            f"<= {tiny_kw['max_cuts']} cuts, every arrangement, painted and unpainted) enumerated fully, the rest seeded; "
+            f"tiny scopes ({tiny_n} cases: {pg.describe_scopes(scopes)}; both strands, every cut set and arrangement) "
+            "enumerated fully, the rest seeded; "
             f"piece interiors located: {stats['cores']}, deep cuts checked: {stats['deep_cuts']}; per family: "
             + ", ".join(f"{k}={v}" for k, v in sorted(stats.items()) if k not in ("cores", "deep_cuts"))
         ),
